@@ -1654,7 +1654,11 @@ _PURE_DOTTED = {'textwrap.dedent': __import__('textwrap').dedent, 'textwrap.inde
                 'inspect.cleandoc': __import__('inspect').cleandoc, 'os.path.basename': __import__('os').path.basename,
                 'os.path.splitext': __import__('os').path.splitext, 'os.path.normpath': __import__('os').path.normpath,
                 'html.escape': __import__('html').escape, 'keyword.iskeyword': __import__('keyword').iskeyword,
-                'string.capwords': __import__('string').capwords, 'unicodedata.normalize': __import__('unicodedata').normalize}
+                'string.capwords': __import__('string').capwords, 'unicodedata.normalize': __import__('unicodedata').normalize,
+                # read-only queries of interpreter state: a representative value (nothing in pedal's logic may depend
+                # on which)
+                'sys.getrecursionlimit': lambda: 1000, 'os.getcwd': lambda: '/cwd', 'os.getpid': lambda: 4242,
+                'sys.getswitchinterval': lambda: 0.005, 'threading.active_count': lambda: 1}
 
 
 class ModRef:
